@@ -338,7 +338,7 @@ def main(argv=None):
     quota = getattr(H, "TASK_QUOTA", 40)
     with ctxmp.Pool(jobs) as pool:
         outstanding = []
-        queue = [(prop, cfg, None, SPLIT_AFTER, deadline, patches) for cfg in cfgs]
+        queue = [(prop, cfg, None, cfg.get("split_after", SPLIT_AFTER), deadline, patches) for cfg in cfgs]
         while queue or outstanding:
             while queue and len(outstanding) < 3 * jobs:
                 outstanding.append(pool.apply_async(_task, (queue.pop(0),)))
